@@ -5,8 +5,10 @@
 // C status: z (int 0) / nz (int != 0) / val (value wrapper) / void / null|ptr (pointer wrapper)
 // T status: ok / fail (returned false / NULL) / throw / inv (an argument the C++ API cannot even express: NULL)
 // dC/dT = change of the number of live heap bytes caused by the C call / the twin call (ASan allocator statistics).
-// At the end of a sequence:  E <seq> sumC=<..> sumT=<..> lsan=<0|1>   (LSan sees only the C side: the twin's
-// allocations are made under __lsan_disable()).
+// At the end of a sequence:  E <seq> sumC=<..> sumT=<..> lsan=<0|1> liveH=<n> liveR=<n>   (LSan sees only the C side:
+// the twin's allocations are made under __lsan_disable(); liveH / liveR = C handles / result slots that still own
+// something when the script ends, i.e. what the script itself failed to release; they are dropped before the leak
+// check so that LeakSanitizer attributes whatever is unreachable to this sequence and not to the next one).
 // usage: c18_harness <script> <fixture-dir>       (script: FIX <seed> / SEQ <id> <nh> / op lines / END)
 #include "common.h"
 #include <fstream>
@@ -80,8 +82,8 @@ struct Fixtures {
   std::string dir;
   std::vector<std::string> tfile;                       // t0..t4
   std::vector<std::pair<void*, size_t>> tmem;
-  std::string garbage, empty, trunc, missing, outC, outT, baddir;
-  std::pair<void*, size_t> garbagemem, truncmem;
+  std::string garbage, empty, trunc, trunc2, missing, outC, outT, baddir;
+  std::pair<void*, size_t> garbagemem, truncmem, trunc2mem;
 } FX;
 
 static void write_bytes(const std::string& p, const void* d, size_t n) { FILE* f = fopen(p.c_str(), "wb"); if (n) fwrite(d, 1, n, f); fclose(f); }
@@ -95,7 +97,7 @@ static void make_fixtures(uint64_t seed, const std::string& dir) {
     {{2, 3}, {2, 2}, false},
     {{1, 2, 1}, {1, 1, 1}, false},
     {{1, 1, 1, 1, 1, 1, 1, 1}, {0, 0, 0, 0, 0, 0, 0, 0}, false},   // 8 dimensions: ndsplineeval_gradient refuses these
-    {{1}, {2}, true},                                                // all-zero coefficients: grideval refuses these
+    {{1}, {2}, true},                                                // all-zero coefficients: grideval yields a result with 0 rows
   };
   for (size_t k = 0; k < specs.size(); k++) {
     Table t;
@@ -116,11 +118,16 @@ static void make_fixtures(uint64_t seed, const std::string& dir) {
   FX.garbage = dir + "/garbage.fits"; write_bytes(FX.garbage, g.data(), g.size());
   FX.garbagemem.second = g.size(); FX.garbagemem.first = malloc(g.size()); memcpy(FX.garbagemem.first, g.data(), g.size());
   FX.empty = dir + "/empty.fits"; write_bytes(FX.empty, "", 0);
-  // truncated inside the primary header: cfitsio cannot even open it (clean failure of the C++ core as it is today;
-  // deeper truncations are the subject of C07 and are not used here)
+  // truncated inside the primary header: cfitsio cannot even open it
   size_t cut = 1000;
   FX.trunc = dir + "/trunc.fits"; write_bytes(FX.trunc, FX.tmem[1].first, cut);
   FX.truncmem.second = cut; FX.truncmem.first = malloc(cut); memcpy(FX.truncmem.first, FX.tmem[1].first, cut);
+  // truncated after the coefficient HDU (the knot and extent HDUs are missing): the reader has already built part of the
+  // object when it fails; it must release that and leave an empty table (arbitrary corruption is the subject of C07)
+  size_t cut2 = 2 * 2880;
+  if (cut2 >= FX.tmem[1].second) cut2 = FX.tmem[1].second - 2880;
+  FX.trunc2 = dir + "/trunc2.fits"; write_bytes(FX.trunc2, FX.tmem[1].first, cut2);
+  FX.trunc2mem.second = cut2; FX.trunc2mem.first = malloc(cut2); memcpy(FX.trunc2mem.first, FX.tmem[1].first, cut2);
   FX.missing = dir + "/missing.fits";
   FX.outC = dir + "/outC.fits"; FX.outT = dir + "/outT.fits";
   FX.baddir = dir + "/no_such_dir/x.fits";
@@ -222,14 +229,14 @@ static bool run_op(const std::vector<std::string>& w, Buf& c, Buf& t, long& dC, 
     if (!ch) t.add("inv"); else { TSIDE(delete W[h]; W[h] = nullptr); t.add("ok data=null"); }
   } else if (op == "readfile") {
     const std::string& src = w[2];
-    std::string path = src == "missing" ? FX.missing : src == "garbage" ? FX.garbage : src == "empty" ? FX.empty : src == "trunc" ? FX.trunc : src[0] == 't' ? FX.tfile[src[1] - '0'] : "";
+    std::string path = src == "missing" ? FX.missing : src == "garbage" ? FX.garbage : src == "empty" ? FX.empty : src == "trunc" ? FX.trunc : src == "trunc2" ? FX.trunc2 : src[0] == 't' ? FX.tfile[src[1] - '0'] : "";
     const char* p = nullarg == "path" ? nullptr : path.c_str();
     int rc; CSIDE(rc = readsplinefitstable(p, ch)); c.add("%s", rc_status(rc));
     if (!p || !ch) t.add("inv");
     else { bool thrown = false; TSIDE(delete W[h]; W[h] = nullptr; try { W[h] = new Table(path); } catch (...) { thrown = true; }); t.add(thrown ? "throw" : "ok"); }
   } else if (op == "readmem") {
     const std::string& src = w[2];
-    std::pair<void*, size_t> m = src == "garbage" ? FX.garbagemem : src == "trunc" ? FX.truncmem : FX.tmem[src[1] - '0'];
+    std::pair<void*, size_t> m = src == "garbage" ? FX.garbagemem : src == "trunc" ? FX.truncmem : src == "trunc2" ? FX.trunc2mem : FX.tmem[src[1] - '0'];
     struct splinetable_buffer b; b.data = nullarg == "data" ? nullptr : m.first; b.size = m.second;
     struct splinetable_buffer* bp = nullarg == "buffer" ? nullptr : &b;
     int rc; CSIDE(rc = readsplinefitstable_mem(bp, ch)); c.add("%s", rc_status(rc));
@@ -332,7 +339,9 @@ static bool run_op(const std::vector<std::string>& w, Buf& c, Buf& t, long& dC, 
     else { bool thrown = false; TSIDE(try { W[h]->fit(f.data, f.w, f.coords, f.ord, f.knots, f.smooth, f.pord, f.monodim, false); } catch (...) { thrown = true; }); t.add(thrown ? "throw" : "ok"); }
     ndsparse_free(&f.data);
   } else if (op == "grideval") {
-    const Table* tw = W[h]; if (tw && tw->ndim == 0) return false;
+    // an object without data: grideval of the C++ core dereferences the (null) arrays unless it checks ndim first; the
+    // script asks for this call ("empty-ok") only when the core has that check (bin/props/C18.py: empty_grideval_defined)
+    const Table* tw = W[h]; if (tw && tw->ndim == 0 && !(w.size() > 4 && w[4] == "empty-ok")) return false;
     int s = atoi(w[2].c_str()); Rng r(strtoull(w[3].c_str(), nullptr, 10));
     if (!tw || !ch) {   // no object behind the handle (or no handle): the guard must answer, *result must be NULL
       double dummy = 0; const double* cp1[1] = {&dummy}; uint32_t nc1[1] = {1}; int rc; struct ndsparse* res = (struct ndsparse*)0x1;
@@ -347,6 +356,7 @@ static bool run_op(const std::vector<std::string>& w, Buf& c, Buf& t, long& dC, 
       for (int k = 0; k < n; k++) co[i].push_back(lo + (hi - lo) * (k + 0.5) / n);
       cp[i] = co[i].data(); nc[i] = n;
     }
+    if (nd == 0) { cp.reserve(1); nc.reserve(1); }   // non-null (empty) argument arrays
     int rc; struct ndsparse* res = (struct ndsparse*)0x1;
     CSIDE(rc = splinetable_grideval(ch, cp.data(), nc.data(), &res));
     c.add("%s", rc_status(rc));
@@ -354,29 +364,36 @@ static bool run_op(const std::vector<std::string>& w, Buf& c, Buf& t, long& dC, 
     { bool thrown = false; TSIDE(try { ND_T[s] = tw->grideval(co).release(); } catch (...) { thrown = true; ND_T[s] = nullptr; });
       t.add(thrown ? "throw" : "ok"); if (!thrown) t.add(" nd=%016llx", (unsigned long long)nd_hash(ND_T[s])); else t.add(" res=null"); }
   } else if (op == "permute") {
-    const Table* tw = W[h]; if (!tw || tw->ndim == 0) return false;
+    const Table* tw = W[h]; if (!tw) return false;
     Rng r(strtoull(w[3].c_str(), nullptr, 10)); uint32_t nd = tw->ndim;
+    // (an empty table has no dimensions: the only permutation is the empty one, which permuteDimensions accepts)
     std::vector<size_t> p(nd); std::iota(p.begin(), p.end(), 0);
     for (uint32_t i = nd; i > 1; i--) std::swap(p[i - 1], p[r.below(i)]);
-    if (w[2] == "dup") { if (nd < 2) p[0] = 1; else p[0] = p[1]; }
-    if (w[2] == "big") p[r.below(nd)] = nd + r.below(3);
-    std::vector<size_t> pc = p;
-    int rc; CSIDE(rc = splinetable_permute(ch, pc.data())); c.add("%s", rc_status(rc));
+    if (w[2] == "dup" && nd > 0) { if (nd < 2) p[0] = 1; else p[0] = p[1]; }
+    if (w[2] == "big" && nd > 0) p[r.below(nd)] = nd + r.below(3);
+    std::vector<size_t> pc = p; size_t none[1] = {0};
+    int rc; CSIDE(rc = splinetable_permute(ch, nd ? pc.data() : none)); c.add("%s", rc_status(rc));
     bool thrown = false; TSIDE(try { W[h]->permuteDimensions(p); } catch (...) { thrown = true; }); t.add(thrown ? "throw" : "ok");
   } else if (op == "convolve") {
-    const Table* tw = W[h]; if (tw && tw->ndim == 0) return false;
+    const Table* tw = W[h];
     if (!tw || !ch || nullarg == "knots") {
       double kk[2] = {-0.125, 0.125}; int rc; CSIDE(rc = splinetable_convolve(ch, 0, nullarg == "knots" ? nullptr : kk, 2)); c.add("%s", rc_status(rc)); t.add("inv");
       digest((Table*)H[h].data, c); digest(W[h], t); return true;
     }
-    Rng r(strtoull(w[3].c_str(), nullptr, 10)); uint32_t nd = tw->ndim; int d = (int)r.below(nd);
+    Rng r(strtoull(w[3].c_str(), nullptr, 10)); uint32_t nd = tw->ndim; int d = nd ? (int)r.below(nd) : 0;
     std::vector<double> k = r.coin() ? std::vector<double>{-0.125, 0.125} : std::vector<double>{-0.25, 0.0, 0.25};
     size_t nk = k.size();
-    if (w[2] == "huge") {
+    // on an empty table every dimension is out of range: convolve refuses whatever the other arguments are
+    if (nd == 0) { if (w[2] == "negdim") d = -1; else if (w[2] == "nokernel") nk = 0; else if (w[2] == "baddim") d = (int)r.below(3); }
+    else if (w[2] == "huge") {
       // an absurd n_knots (invalid argument): the size of the first scratch array, nknots*n_knots + 2*convorder, exceeds
       // what `new double[]` can express, so convolve throws std::bad_array_new_length before it touches the table
       nk = (~(size_t)0) / (size_t)tw->nknots[d] / 2;
-    } else if (tw->order[d] + nk - 1 > 6) return false;
+    }
+    else if (w[2] == "baddim") d = (int)(nd + r.below(3));        // dim >= ndim: refused
+    else if (w[2] == "negdim") d = -1 - (int)r.below(2);          // negative dim: becomes a huge uint32_t, refused
+    else if (w[2] == "nokernel") nk = 0;                          // empty kernel: refused
+    else if (tw->order[d] + nk - 1 > 6) return false;
     int rc; CSIDE(rc = splinetable_convolve(ch, d, k.data(), nk)); c.add("%s", rc_status(rc));
     bool thrown = false; TSIDE(try { W[h]->convolve(d, k.data(), nk); } catch (...) { thrown = true; }); t.add(thrown ? "throw" : "ok");
   } else {
@@ -422,11 +439,13 @@ int main(int argc, char** argv) {
       printf("S %s\n", seq.c_str()); fflush(stdout); continue;
     }
     if (w[0] == "END") {
-      int leak = 0;
+      int leak = 0, liveH = 0, liveR = 0;
+      for (int i = 0; i < MAXH; i++) { if (H[i].data) liveH++; H[i].data = nullptr; }
+      for (int i = 0; i < MAXS; i++) { if (ND_C[i]) liveR++; ND_C[i] = nullptr; }
 #if HAVE_SAN
       leak = __lsan_do_recoverable_leak_check();
 #endif
-      printf("E %s sumC=%ld sumT=%ld lsan=%d\n", seq.c_str(), sumC, sumT, leak); fflush(stdout);
+      printf("E %s sumC=%ld sumT=%ld lsan=%d liveH=%d liveR=%d\n", seq.c_str(), sumC, sumT, leak, liveH, liveR); fflush(stdout);
       fprintf(stderr, "@E %s\n", seq.c_str()); fflush(stderr); continue;
     }
     Buf c, t; long dC, dT;
@@ -437,7 +456,7 @@ int main(int argc, char** argv) {
     fflush(stdout); idx++;
   }
   for (auto& m : FX.tmem) free(m.first);
-  free(FX.garbagemem.first); free(FX.truncmem.first);
+  free(FX.garbagemem.first); free(FX.truncmem.first); free(FX.trunc2mem.first);
   printf("Q done\n");
   return 0;
 }
